@@ -76,6 +76,7 @@ def check(case, ctx):
         for b in list(env.batches):      # cancel() switches the active batch, which creates a new (empty) one
             if not b.is_flushed():
                 b.cancel()
+        engine.finalize_abandoned(env)
         fk = failure_kind(prog, env, limit)
         if fk:
             kinds.add(fk)
